@@ -108,6 +108,12 @@ inline std::vector<Expect> analyse(Chain const& c, Inputs const& in, int narrowe
             e.exponent = A.exponent + B.exponent;
             e.digits = std::max(1, (A.digits == 1 ? 0 : A.digits) + (B.digits == 1 ? 0 : B.digits));
             e.value = A.value * B.value;
+            // inherited from C08, through C06: a 1-digit operand contributes no digits to the product, so the overflow layer's
+            // digit pre-filter does not rule overflow out and the predicate evaluates max() / rhs with the chain's rounding division;
+            // when the result digits fill their storage the bias of that division overflows
+            if ((c.round == R_NEAREST || c.round == R_TIE_POS) && (A.digits == 1 || B.digits == 1) && storage_digits(e.digits, narrowest_digits) == e.digits
+                && e.digits >= 31)
+                e.cause = "multiply-predicate-division-bias/";
             break;
         case NEG: e.exponent = A.exponent, e.digits = A.digits, e.value = -A.value; break;
         case DIV: {
